@@ -27,17 +27,20 @@ impl Reader {
         let db = region.db();
         let region = region.clone();
 
+        // The mapping is pinned before the placement is read: freed extents are only made
+        // reusable while no reader pins the mapping, so the (start, len) snapshot below
+        // cannot go stale between the two steps.
+        // SAFETY: Transmute extends the guard lifetime to 'static. This is safe
+        // because `_db` (the Arc) outlives `mmap` (the guard) — see struct field order.
+        let mmap: RwLockReadGuard<'static, MmapMut> = unsafe { std::mem::transmute(db.mmap()) };
+
+        #[cfg(feature = "verif")]
+        crate::verif::point("reader:after_mmap_guard");
+
         let meta = region.meta();
         let start = meta.start();
         let len = meta.len();
         drop(meta);
-
-        #[cfg(feature = "verif")]
-        crate::verif::point("reader:after_meta_snapshot");
-
-        // SAFETY: Transmute extends the guard lifetime to 'static. This is safe
-        // because `_db` (the Arc) outlives `mmap` (the guard) — see struct field order.
-        let mmap: RwLockReadGuard<'static, MmapMut> = unsafe { std::mem::transmute(db.mmap()) };
 
         Self {
             _db: db,
